@@ -1,5 +1,6 @@
 import PV.Model.Eval
 import PV.Model.Ops
+import PV.Model.Traverse
 /-
   Driver operations: one request S-expression in, one reply S-expression out.
 -/
@@ -89,9 +90,95 @@ def handleCore : Sexp → Sexp
     | none => bad "echo"
   | _ => bad "unknown request"
 
+def substMapOfSexp? : Sexp → Option SubstMap
+  | .list entries => do
+      let mut σ : SubstMap := {}
+      for en in entries do
+        match en with
+        | .list [.atom "name", n, v] =>
+          σ := { σ with byName := σ.byName ++ [((← n.text), (← Expr.ofSexp? v))] }
+        | .list [.atom "expr", k, v] =>
+          σ := { σ with byExpr := σ.byExpr ++ [((← Expr.ofSexp? k), (← Expr.ofSexp? v))] }
+        | _ => none
+      pure σ
+  | _ => none
+
+def depErrToSexp : DepErr → Sexp
+  | .unsupported => Sexp.mk "err" [.atom "Unsupported"]
+  | .foreign => Sexp.mk "err" [.atom "Foreign"]
+  | .unhashable => Sexp.mk "err" [.atom "TypeError"]
+
+def depFlagsOfSexp? : Sexp → Option DepFlags
+  | .list [.atom s, .atom l, .atom c, .atom cs] =>
+    some { subscripts := s == "true", lookups := l == "true",
+           calls := if c == "yes" then .yes else if c == "no" then .no else .descend,
+           cses := cs == "true" }
+  | _ => none
+
+/-- canonical (sorted) rendering of a set of expressions -/
+def setToSexp (xs : List Expr) : Sexp :=
+  let strs := (xs.map fun e => toString e.toSexp).toArray.qsort (· < ·)
+  .list (strs.toList.map .atom)
+
+def eventsToSexp (ev : List Event) : Sexp :=
+  .list (ev.map fun e => .list [.atom (if e.post then "post" else "visit"), e.node.toSexp,
+    Sexp.ofBool e.args])
+
+def handleTraverse : Sexp → Option Sexp
+  | .list [.atom "subst", sg, e] =>
+    match substMapOfSexp? sg, Expr.ofSexp? e with
+    | some σ, some e =>
+      let (r, ch) := substM σ e
+      some (.list [r.toSexp, Sexp.ofBool ch])
+    | _, _ => some (bad "subst")
+  | .list [.atom "deps", fl, .atom cached, e] =>
+    match depFlagsOfSexp? fl, Expr.ofSexp? e with
+    | some fl, some e =>
+      if cached == "true" && e.hasList then some (depErrToSexp .unhashable) else
+      match deps fl e with
+      | .ok xs => some (setToSexp xs)
+      | .error err => some (depErrToSexp err)
+    | _, _ => some (bad "deps")
+  | .list [.atom "walk", .list skip, .atom args, e] =>
+    match strList? skip, Expr.ofSexp? e with
+    | some skip, some e => match walk skip (args == "true") e with
+      | .ok ev => some (eventsToSexp ev)
+      | .error err => some (depErrToSexp err)
+    | _, _ => some (bad "walk")
+  | .list [.atom "combine", e] =>
+    match Expr.ofSexp? e with
+    | some e => match combineL e with
+      | .ok xs => some (.list (xs.map Expr.toSexp))
+      | .error err => some (depErrToSexp err)
+    | none => some (bad "combine")
+  | .list [.atom "numnodes", e] =>
+    match Expr.ofSexp? e with
+    | some e => match numNodes e with
+      | .ok n => some (Sexp.ofNat n)
+      | .error err => some (depErrToSexp err)
+    | none => some (bad "numnodes")
+  | .list [.atom "flops", .atom aware, .list es] =>
+    match Expr.ofSexpL? es with
+    | some es =>
+      -- successive calls on ONE counter instance (the CSE seen-set persists)
+      let rec go (es : List Expr) (seen : List Expr) : List Sexp :=
+        match es with
+        | [] => []
+        | e :: rest =>
+          if aware != "true" && e.hasList then depErrToSexp .unhashable :: go rest seen
+          else match flopsG (aware == "true") e seen with
+            | .ok (n, seen') => Sexp.ofNat n :: go rest seen'
+            | .error err => depErrToSexp err :: go rest seen
+      some (.list (go es []))
+    | none => some (bad "flops")
+  | _ => none
+
 def handle (req : Sexp) : Sexp :=
-  match handleOps req with
+  match handleTraverse req with
   | some r => r
-  | none => handleCore req
+  | none =>
+  match handleOps req with
+    | some r => r
+    | none => handleCore req
 
 end PV.Driver
